@@ -47,4 +47,19 @@ CLAIMS = {
                 note=_TB),
 }
 
+CLAIMS.update({
+    'C06': dict(engine='TLC+jsv', design_ref='DESIGN.md section 6 (C06), 4.4',
+                technique='TLA+ list model + transcribed index algorithm; TLC explores every reachable abstract object state x every operation (IdxConsistent, QueriesAreScans, Apply = documented list semantics); each transition replayed with hooked index comparison; long random histories validated by TraceObject',
+                text='JsonObject.tla has two layers: the documented list semantics of every public operation and the index-maintenance algorithm at implementation grain; TLC checks that the second is the index of the first in every reachable state of the bounded graph and prints every (state, operation) transition, which the harness replays from an access history comparing entries, result, the real index buckets (cfg hook) and every key query; long random histories over 40 keys are validated event by event by TraceObject.',
+                note=_TB + 'Hook: Object::verif_index_dump (read-only). Bounded graph: 2-3 keys, 2 values, <= 4-5 entries; traces: 600-24000 operations.'),
+    'C14': dict(engine='TLC+jsv', design_ref='DESIGN.md section 6 (C14)',
+                technique='history independence from the MC_Object graph (states reached by >= 2 histories); order/equality/hash laws checked by TLC (TraceOrder) on recorded all-pairs matrices',
+                text='Every abstract state of the object graph reached through different histories yields real objects that must be ==, Equal and hash-identical (clones too); the real ==/cmp/partial_cmp/hash are evaluated on all pairs of generated domains with near-copies and TLC checks structural equality, totality, antisymmetry, transitivity on all triples and hash coherence. The concrete order is not specified.',
+                note=_TB),
+    'C20': dict(engine='TLC+jsv', design_ref='DESIGN.md section 6 (C20), 4.7',
+                technique='exhaustive TLA+ model of the 64 sets, all operand pairs, all front/back interleavings; every state replayed into the crate',
+                text='The domain is finite and enumerated completely by TLC (IterSound invariant); every set, operand pair, rendering and iterator interleaving is replayed into the real KindSet.',
+                note=_TB),
+})
+
 NOT_CLAIMED = {}
